@@ -58,6 +58,15 @@ func (m *c11mon) After(g *gw.GW, ev string, sn []gw.SNOut, mq []gw.MQOut, setup 
 	st := steps(ev)[0]
 	viewBefore := m.view
 	wake := false
+	// every MQTT PINGREQ (forwarded keep-alive, wake-up, sleep pinger) the broker has still to answer
+	for _, o := range mq {
+		if o.P.Type == refmqtt.PINGREQ {
+			m.pings++
+		}
+	}
+	if st.kind == "B" && st.mq.Type == refmqtt.PINGRESP {
+		m.pings--
+	}
 	switch {
 	case st.kind == "C" && st.sn.Type == refsn.DISCONNECT && st.sn.Duration > 0:
 		// the gateway's DISCONNECT reply is the last datagram before the client sleeps
@@ -144,14 +153,6 @@ func (m *c11mon) After(g *gw.GW, ev string, sn []gw.SNOut, mq []gw.MQOut, setup 
 				delete(m.awaitRel, id)
 			}
 		}
-	}
-	for _, o := range mq {
-		if o.P.Type == refmqtt.PINGREQ {
-			m.pings++
-		}
-	}
-	if st.kind == "B" && st.mq.Type == refmqtt.PINGRESP {
-		m.pings--
 	}
 	for _, o := range sn {
 		if o.Err != nil {
@@ -310,6 +311,10 @@ func (m *c11mon) Next(g *gw.GW) []string {
 		a = append(a, gw.EvC("DISCONNECT(3)", gw.Disconnect(3)), gw.EvC("DISCONNECT(30)", gw.Disconnect(30)))
 		if m.cycles > 0 && !m.usedB[11] {
 			a = append(a, broker[1])
+		}
+		if m.pings == 0 {
+			// a keep-alive PINGREQ just before falling asleep: the broker's answer can arrive when the client sleeps
+			a = append(a, gw.EvC("PINGREQ(keep-alive)", gw.Pingreq("")))
 		}
 	case "asleep":
 		for _, b := range broker {
